@@ -631,7 +631,6 @@ SCAN_SKIP = '''let ghost es = parse(buf@); let ghost p1 = ks.pos[fd];
                             assert forall|j: int| 0 <= j < p1 implies (#[trigger] d[j]).off != offset by { if j >= p0 { assert(es[j - p0] == d[j]); } }
                         }
                     }'''
-SCAN_NONEMPTY = 'proof { lemma_parse_step(buf@); }'
 DR_BATCH = '''proof { assert(batch_ok(*ks, fd, offset, buf@)); } // [C16.do_readdir.batch] both paths leave in `buf` the run that starts right after the cookie, the descriptor right after the last record
             let ghost ks4 = *ks;'''
 DR_CACHED = '''proof {
@@ -642,7 +641,7 @@ DR_CACHED = '''proof {
                     lemma_find_off(d, d[p - 1].off);
                     lemma_find_off_is(d, d[p - 1].off, p - 1);
                 }
-                assert(cache_inv(*ks));
+                assert(cache_inv(*ks)); // [C16.do_readdir.cache_inv] the cookie cached is the one the descriptor stands right after
             }'''
 REC_INV = '''let ghost batch = parse(buf@); let ghost ks5 = *ks;
         proof {
@@ -784,5 +783,8 @@ def unit(root='/repo'):
                         ('last\n    }', 'before', 'proof { assert(buf@.len() == 0); assert(parse(buf0) =~= pre); }')]),
         ]),
     ]
-    u = Unit('ptreaddir', items, preludes=['base.rs', 'stdmodel.rs'], generic_tags={})
+    u = Unit('ptreaddir', items, preludes=['base.rs', 'stdmodel.rs'], generic_tags={},
+             notes='C16 passthrough side: kernel directory stream modelled as Seq<Dirent> + per-descriptor position (module sys, KState); '
+                   'callback = generic AddEntry with a ghost call log; cross-call statement = proof fns lemma_c16_step / lemma_c16 '
+                   '(hypothesis `progress`: an empty reply only when nothing visible is left - violated for tiny reply buffers, see findings/repro_pt_readdir.rs)')
     return u
